@@ -21,13 +21,13 @@ import (
 )
 
 type tree struct {
-	O     int     `json:"o"` // 0 ok, 1 err, 2 panic
+	O     int     `json:"o"` // 0 ok, 1 err, 2 panic while executing the plan, 3 panic in NextStages() after the plan ran
 	Async bool    `json:"a"`
 	Next  []*tree `json:"n,omitempty"`
 }
 
 func (t *tree) coq() string {
-	o := []string{"Ok", "Err", "Panic"}[t.O]
+	o := []string{"Ok", "Err", "Panic", "PanicNext"}[t.O]
 	var xs []string
 	for _, c := range t.Next {
 		xs = append(xs, c.coq())
@@ -84,14 +84,30 @@ func (n *node) ExecuteWithStats() (*commonmodels.OperatorStats, error) {
 	}
 	return nil, nil
 }
-func (n *node) Children() []stagepkg.PlanNode  { return nil }
-func (n *node) AddChild(_ stagepkg.PlanNode)   {}
-func (n *node) IgnoreNotFound() bool           { return false }
+func (n *node) Children() []stagepkg.PlanNode { return nil }
+func (n *node) AddChild(_ stagepkg.PlanNode)  {}
+func (n *node) IgnoreNotFound() bool          { return false }
+
+// panicNext is a stage whose plan runs fine and whose NextStages() panics (shard scan / grouping / metadata
+// lookup stages do real work there); everything else is the embedded stage.
+type panicNext struct {
+	*stagepkg.VerifStage
+	c *ctrl
+}
+
+func (s *panicNext) NextStages() []stagepkg.Stage {
+	atomic.AddInt32(&s.c.failed, 1)
+	atomic.AddInt32(&s.c.panicked, 1)
+	panic("next stages panicked")
+}
 
 func build(ctx context.Context, c *ctrl, pool interface{}, t *tree, id string, mk func(async bool, id string, n stagepkg.PlanNode) *stagepkg.VerifStage) stagepkg.Stage {
 	n := &node{c: c, outcome: t.O, release: make(chan struct{})}
 	s := mk(t.Async, id, n)
 	s.OnComplete = func() { atomic.AddInt32(&c.completed, 1) }
+	if t.O == 3 {
+		return &panicNext{VerifStage: s, c: c}
+	}
 	for i, ch := range t.Next {
 		s.Next = append(s.Next, build(ctx, c, pool, ch, fmt.Sprintf("%s.%d", id, i), mk))
 	}
@@ -124,6 +140,9 @@ func runTree(t *tree, r *vh.Rand) result {
 		c.mu.Lock()
 		if len(c.cbs) == 0 {
 			c.unfinAtCb = int(atomic.LoadInt32(&c.started) - atomic.LoadInt32(&c.completed))
+			if c.unfinAtCb < 0 { // more completions than started stages (a stage completed twice): keep it a nat, still non-zero
+				c.unfinAtCb = -c.unfinAtCb
+			}
 		}
 		c.cbs = append(c.cbs, err == nil)
 		c.mu.Unlock()
@@ -188,7 +207,7 @@ func runTree(t *tree, r *vh.Rand) result {
 func enumTrees(n int) []*tree {
 	var res []*tree
 	for _, forest := range enumForests(n - 1) {
-		for o := 0; o < 3; o++ {
+		for o := 0; o < 4; o++ {
 			for a := 0; a < 2; a++ {
 				res = append(res, &tree{O: o, Async: a == 1, Next: forest})
 			}
@@ -216,10 +235,12 @@ func genTree(r *vh.Rand, depth, budget int) *tree {
 	switch x := r.Intn(100); {
 	case x < 70:
 		t.O = 0
-	case x < 88:
+	case x < 84:
 		t.O = 1
-	default:
+	case x < 92:
 		t.O = 2
+	default:
+		t.O = 3
 	}
 	if depth > 0 {
 		k := r.Intn(4)
@@ -260,7 +281,7 @@ func main() {
 	r := vh.NewRand(cfg.Seed)
 	out := vh.NewOut(cfg.Out, "From Coq Require Import List Bool Arith.\nImport ListNotations.\nFrom LinDBV.C19 Require Import Model Check.\n")
 	var trees []*tree
-	// exhaustive small trees (<= 3 stages: 6 + 36 + 432 = 474 trees), each under one PRNG-chosen completion order
+	// exhaustive small trees (<= 3 stages: 8 + 64 + 1024 = 1096 trees), each under one PRNG-chosen completion order
 	maxExh := 3
 	for n := 1; n <= maxExh; n++ {
 		trees = append(trees, enumTrees(n)...)
